@@ -540,11 +540,22 @@ fn main() {
         hs.push(std::thread::spawn(move || loop {
             let job = jobs.lock().unwrap().pop();
             let Some((n, job)) = job else { break };
-            let run = match job {
-                Job::Beh(i, b) => Some(run_behaviour(i, &b, seed, &fault)),
-                Job::Rand(r) => Some(run_random(r, seed, &fault)),
-                Job::Stale(r, alpha) => run_stale(r, seed, alpha),
-            };
+            // Outside the stale-request scenario every request must stay fresh (younger than the
+            // engine's 10 s peer timeout): an execution that took longer than 3 s of wall time
+            // (a starved thread on a loaded machine) is re-run, and dropped if that keeps happening.
+            let mut run = None;
+            for _attempt in 0..3 {
+                let t = Instant::now();
+                run = match &job {
+                    Job::Beh(i, b) => Some(run_behaviour(*i, b, seed, &fault)),
+                    Job::Rand(r) => Some(run_random(*r, seed, &fault)),
+                    Job::Stale(r, alpha) => run_stale(*r, seed, *alpha),
+                };
+                if matches!(job, Job::Stale(..)) || t.elapsed() < Duration::from_secs(3) {
+                    break;
+                }
+                run = None;
+            }
             // stale-request executions are started first (they sleep) but written last
             let n = if run.as_ref().map(|r| r.lines[0].contains("\"src\":\"stale\"")).unwrap_or(false) { n + 1_000_000_000 } else { n };
             match run {
